@@ -30,7 +30,8 @@ where
     loop {
         let old_x_curr = x_curr;
         x_curr = (lower_bound + upper_bound) / 2_f64;
-        if x_curr != 0 as f64 {
+        // The first midpoint has no previous midpoint to be compared with
+        if iter > 0 && x_curr != 0 as f64 {
             approx_err = {
                 let absv = x_curr - old_x_curr;
                 (absv.abs() / x_curr) * 100_f64
